@@ -101,6 +101,29 @@ check("C20", "exploration",
       "runtime monitoring: panic monitor + fixed-point oracle over exhaustive short inputs and generated programs",
       "DESIGN.md §3 C20")
 
+check("C01", "exploration",
+      "Evaluates exhaustive operator/operand-kind, index/slice, call-shape and operator-precedence "
+      "tables plus random type-directed programs with the real evaluator under both parsers, minimal "
+      "and full parenthesisation and five embedding positions (snippet, imported file, import "
+      "expression, ext-code variable, TLA function body) and compares value / error-ness with a "
+      "reference evaluator written from the specification that runs on the generator's AST.",
+      "Trusts mon/ref/interp.py as the semantics (self-validated by agreement with the real evaluator "
+      "on > 99.9% of generated programs; every disagreement was classified by hand); the reference "
+      "abstains where the documentation does not pin the outcome. Error text is never compared.",
+      "runtime monitoring: differential oracle (independent reference interpreter) + metamorphic relation across parsers/embeddings",
+      "DESIGN.md §3 C01")
+check("C03", "exploration",
+      "Wraps every sub-expression of generated programs in std.trace with a distinct label, plants "
+      "error / failing-assert / divergence bombs in positions the reference evaluator marks unneeded, "
+      "collects the trace events through a TracePrinter installed in the worker and checks outcome == "
+      "reference and observed label count <= the reference's call-by-need bound (memo per local, "
+      "argument, array element, and object field per access path); plus hand-built sharing shapes and "
+      "lazy-vs-tailstrict pairs.",
+      "Label counts are compared only when the outcome is a value; evaluating less than the bound is "
+      "never a violation.",
+      "runtime monitoring: trace-event monitor (TracePrinter hook) checked against a call-by-need reference bound",
+      "DESIGN.md §3 C03")
+
 NOT_APPLICABLE = []
 
 
